@@ -229,6 +229,15 @@ const CURATED: &[&str] = &[
     "4k2r/8/8/8/8/8/8/4K2R w Kk - 0 1",
     "6k1/8/8/8/8/8/3p4/4K2R w K - 0 1",
     "4k3/8/8/8/8/8/5p2/R3K2R w KQ - 0 1",
+    "k6R/8/8/8/8/8/8/K7 b - - 0 1",
+    "7k/8/8/8/8/8/8/Q6K b - - 0 1",
+    "k7/P7/1K6/8/8/8/8/8 b - - 0 1",
+    "8/8/8/4k3/8/3K4/8/8 w - - 0 1",
+    "8/8/8/8/8/8/1k6/R3K3 w Q - 0 1",
+    "r3k3/8/8/8/8/8/8/R3K3 w Q - 0 1",
+    "4k3/6b1/8/8/8/8/P7/R3K3 w Q - 0 1",
+    "r3k2r/8/8/8/4P3/8/8/R3K2R b KQkq e3 0 1",
+    "3r2k1/5ppp/8/8/2P5/8/1n6/3R2K1 w - - 0 1",
 ];
 
 fn random_placement(rng: &mut Rng) -> Pos {
@@ -262,6 +271,25 @@ fn random_placement(rng: &mut Rng) -> Pos {
     }
 }
 
+// any placement with exactly one king per side (kings may touch, either side may be in check): the domain of C06
+fn random_any_placement(rng: &mut Rng) -> Pos {
+    let mut sq = [[None; 8]; 8];
+    let wk = (rng.below(8), rng.below(8));
+    let bk = loop {
+        // half of the time the kings are neighbours
+        let c = if rng.below(2) == 0 { ((wk.0 as i32 + rng.below(3) as i32 - 1).clamp(0, 7) as usize, (wk.1 as i32 + rng.below(3) as i32 - 1).clamp(0, 7) as usize) } else { (rng.below(8), rng.below(8)) };
+        if c != wk { break c; }
+    };
+    sq[wk.0][wk.1] = Some((true, K::K)); sq[bk.0][bk.1] = Some((false, K::K));
+    let n = rng.below(9);
+    for _ in 0..n {
+        let (r, c) = (rng.below(8), rng.below(8));
+        if sq[r][c].is_some() { continue; }
+        let k = [K::P, K::P, K::N, K::B, K::R, K::Q, K::B, K::Q][rng.below(8)];
+        sq[r][c] = Some((rng.below(2) == 0, k));
+    }
+    Pos { sq, white_to_move: rng.below(2) == 0, castle: [false; 4], ep: None }
+}
 struct Source { rng: Rng, idx: usize, walk: Option<(Pos, usize)> }
 impl Source {
     fn next(&mut self) -> Pos {
@@ -317,8 +345,9 @@ fn hunt_positions(prop: &str, focus: &str, seed: u64, budget: f64, stats: bool) 
     let t0 = Instant::now();
     let mut n = 0u64; let mut distinct: HashSet<Pos> = HashSet::new();
     while t0.elapsed() < Duration::from_secs_f64(budget) || n < CURATED.len() as u64 {
-        let p = src.next();
-        if !p.is_legal_position() { continue; }
+        let any_placement = prop == "C06" || prop == "C14";
+        let p = if any_placement && n % 2 == 1 { random_any_placement(&mut src.rng) } else { src.next() };
+        if !any_placement && !p.is_legal_position() { continue; }
         n += 1;
         if stats { distinct.insert(p.clone()); }
         let mut r = check_pos(prop, focus, &p, &h);
@@ -470,6 +499,63 @@ fn hunt_fen(seed: u64, budget: f64, stats: bool) -> i32 {
     println!("NONE {}", n); 0
 }
 
+// ---------- C04 / C10: the `position` handler (BOUNDED native stand-in: play_out_position is string code) ----------
+fn check_playout(start: &Pos, use_fen: bool, moves: &[Mv], h: &ZobristHasher) -> Option<String> {
+    // what the rules give
+    let mut cur = start.clone();
+    let mut keys: Vec<u64> = vec![scratch_key(&to_board(&cur, h), h)];
+    for m in moves { cur = cur.apply(*m); keys.push(scratch_key(&to_board(&cur, h), h)); }
+    // what the engine does for `position ... moves ...` (the handler clears the table first)
+    let mut cmd: Vec<String> = vec!["position".into()];
+    if use_fen { cmd.push("fen".into()); for f in start.fen().split(' ') { cmd.push(f.to_string()); } } else { cmd.push("startpos".into()); }
+    if !moves.is_empty() { cmd.push("moves".into()); for m in moves { cmd.push(m.uci()); } }
+    let refs: Vec<&str> = cmd.iter().map(|x| x.as_str()).collect();
+    let mut table = DrawTable::new();
+    table.table.insert(0xdead_beef, 2); // left over from an earlier position command
+    table.clear();
+    let r = std::panic::catch_unwind(std::panic::AssertUnwindSafe(|| wr::uci::verif_play_out_position(&refs, h, &mut table)));
+    let b = match r { Ok(b) => b, Err(_) => return Some("play_out_position panicked".into()) };
+    if let Some(d) = board_matches(&b, &cur) { return Some(format!("position after replay: {}", d)); }
+    if b.zobrist_key != *keys.last().unwrap() { return Some("key after replay is not the from-scratch key".into()); }
+    let mut want: std::collections::HashMap<u64, u8> = std::collections::HashMap::new();
+    for k in &keys { *want.entry(*k).or_insert(0) += 1; }
+    if table.table != want {
+        let first = keys[0];
+        return Some(format!("repetition record differs: {} entries (expected {}), start position counted {:?} (expected {:?})", table.table.len(), want.len(), table.table.get(&first), want.get(&first)));
+    }
+    None
+}
+fn hunt_playout(seed: u64, budget: f64, stats: bool) -> i32 {
+    std::panic::set_hook(Box::new(|_| {}));
+    let h = ZobristHasher::create_zobrist_hasher();
+    let mut rng = Rng(seed.wrapping_mul(0x2545F4914F6CDD1D) | 1);
+    let t0 = Instant::now(); let mut n = 0u64;
+    while t0.elapsed() < Duration::from_secs_f64(budget) || n < 200 {
+        let use_fen = n % 2 == 1;
+        let start = if use_fen { let mut p; loop { p = if rng.below(2) == 0 { Pos::from_fen(CURATED[rng.below(CURATED.len())]).unwrap() } else { random_placement(&mut rng) }; if p.is_legal_position() { break; } } p } else { Pos::from_fen(CURATED[0]).unwrap() };
+        let mut cur = start.clone(); let mut moves: Vec<Mv> = vec![];
+        let len = rng.below(24);
+        let mut hist: Vec<Pos> = vec![cur.clone()];
+        for _ in 0..len {
+            let ms = cur.legal(false);
+            if ms.is_empty() { break; }
+            // prefer moves that return to an earlier position (repetitions), otherwise random
+            let back: Vec<Mv> = ms.iter().cloned().filter(|m| hist.contains(&cur.apply(*m))).collect();
+            let m = if !back.is_empty() && rng.below(2) == 0 { back[rng.below(back.len())] } else { ms[rng.below(ms.len())] };
+            cur = cur.apply(m); moves.push(m); hist.push(cur.clone());
+        }
+        n += 1;
+        if let Some(d) = check_playout(&start, use_fen, &moves, &h) {
+            let ms: Vec<String> = moves.iter().map(|m| m.uci()).collect();
+            println!("CASE {{\"kind\":\"playout\",\"fen\":\"{}\",\"use_fen\":\"{}\",\"moves\":\"{}\",\"observed\":\"{}\",\"input_id\":\"{} moves {}\"}}", start.fen(), use_fen, ms.join(" "), jesc(&d), start.fen(), ms.join(" "));
+            return 1;
+        }
+    }
+    if stats { println!("STATS games={}", n); }
+    println!("NONE {}", n); 0
+}
+fn parse_uci(p: &Pos, t: &str) -> Option<Mv> { p.legal(false).into_iter().find(|m| m.uci() == t) }
+
 fn get_str<'a>(json: &'a str, key: &str) -> Option<String> {
     let pat = format!("\"{}\":\"", key);
     let i = json.find(&pat)? + pat.len();
@@ -488,9 +574,11 @@ fn main() {
             let budget: f64 = a.get(4).and_then(|s| s.parse().ok()).unwrap_or(20.0);
             let focus = a.get(5).map(|s| s.as_str()).unwrap_or("");
             match prop {
-                "C10" => { let mut rc = 0; for c in 0..=6u8 { if let Some(d) = check_draw(c) { println!("CASE {{\"kind\":\"draw\",\"count\":\"{}\",\"observed\":\"{}\",\"input_id\":\"count={}\"}}", c, jesc(&d), c); rc = 1; break; } } if rc == 0 { println!("NONE 7"); } rc }
+                "C10" => { let mut rc = 0; for c in 0..=6u8 { if let Some(d) = check_draw(c) { println!("CASE {{\"kind\":\"draw\",\"count\":\"{}\",\"observed\":\"{}\",\"input_id\":\"count={}\"}}", c, jesc(&d), c); rc = 1; break; } } if rc == 0 { rc = hunt_playout(seed, budget, a[1] == "cross"); } rc }
+                "C04" => { let r = hunt_positions(prop, focus, seed, budget * 0.6, a[1] == "cross"); if r != 0 { r } else { hunt_playout(seed, budget * 0.4, a[1] == "cross") } }
                 "C09" => hunt_slice(seed, budget),
                 "C15" => { let r = hunt_point(); if r != 0 { r } else { hunt_fen(seed, budget, a[1] == "cross") } }
+                "C05" => { let r = hunt_positions(prop, focus, seed, budget * 0.7, a[1] == "cross"); if r != 0 { r } else { hunt_fen(seed, budget * 0.3, a[1] == "cross") } }
                 _ => hunt_positions(prop, focus, seed, budget, a[1] == "cross"),
             }
         }
@@ -499,6 +587,9 @@ fn main() {
             let kind = get_str(js, "kind").unwrap_or_default();
             let r = match kind.as_str() {
                 "position" => { let h = ZobristHasher::create_zobrist_hasher(); let p = Pos::from_fen(&get_str(js, "fen").unwrap()).unwrap(); let mut r = check_pos(prop, "", &p, &h); if r.is_none() && prop == "C13" { r = check_capture_chain(&p, &h, 1); } r }
+                "playout" => { let h = ZobristHasher::create_zobrist_hasher(); let start = Pos::from_fen(&get_str(js, "fen").unwrap()).unwrap(); let mut cur = start.clone(); let mut ms = vec![];
+                    for t in get_str(js, "moves").unwrap().split_whitespace() { let m = parse_uci(&cur, t).unwrap(); cur = cur.apply(m); ms.push(m); }
+                    check_playout(&start, get_str(js, "use_fen").unwrap() == "true", &ms, &h) }
                 "draw" => check_draw(get_str(js, "count").unwrap().parse().unwrap()),
                 "go" => { let g = |k: &str| get_str(js, k).unwrap().parse::<i128>().unwrap(); let m = get_str(js, "movestogo").unwrap(); let mtg = if m == "None" { None } else { m.trim_start_matches("Some(").trim_end_matches(')').parse().ok() };
                     check_slice(&GameTime { wtime: g("wtime"), btime: g("btime"), winc: g("winc"), binc: g("binc"), movestogo: mtg }, js.contains("\"white\":true")) }
